@@ -7,6 +7,13 @@ def chain(profile, qn, tn, ops=80, tops=None, extra=None):
 SDK_TRUST = ["modelled, not verified: Cosmos SDK bank/auth/staking/distribution, baseapp transaction atomicity, IAVL, Tendermint"]
 
 PROPS = {
+    "C15": {
+        "lean": ["Shentu.Props.C15"],
+        "engines": [chain("oracle", 160, 1600)],
+        "trusted": SDK_TRUST,
+        "assumptions": ["block heights are consecutive", "the oracle parameters are constant along a history",
+                        "bounty_bounded is proved at the level of the share arithmetic and the equality of the two formula copies; the threading of the shares through the operator records is covered by the correspondence check"],
+    },
     "C14": {
         "lean": ["Shentu.Props.C14"],
         "engines": [chain("oracle", 160, 1600)],
